@@ -51,6 +51,7 @@ func Load(repo string, overlay map[string][]byte) (*Engine, error) {
 	e.registerStd()
 	e.registerIntrinsics()
 	e.registerFS()
+	e.registerBuilder()
 	return e, nil
 }
 
